@@ -1,3 +1,5 @@
 SPECIFICATION Spec
 CONSTANT Sorted = FALSE
+CONSTANT NamesAsWritten = TRUE
 INVARIANT Deterministic
+INVARIANT NoInternalName
